@@ -248,12 +248,29 @@ func c11History(c *mon.Ctx, r *mon.Rand) {
 		prefix = pool.names[r.Intn(len(pool.names))]
 	}
 	rootTags := pool.tagMap(r, 3)
+	// every fifth history has a wide root tag set (11-18 more keys) of which the
+	// derived scopes override one or two
+	wide := r.Chance(1, 5)
+	if wide {
+		for k := 0; k < r.Range(11, 18); k++ {
+			rootTags[fmt.Sprintf("wk%02d", k)] = "parent"
+		}
+		c.Class("histories-with-more-than-12-tag-keys", 1)
+	}
 	rc := rootCfg{Prefix: prefix, Sep: ".", Tags: rootTags}
 	ts := vNewTest(prefix, copyTagMap(rootTags), uint(r.Range(0, 4)))
 	nsc := r.Range(1, 4)
 	progs := []dprog{{}}
 	for i := 1; i < nsc; i++ {
-		progs = append(progs, pool.prog(r, 3))
+		p := pool.prog(r, 3)
+		if wide {
+			over := map[string]string{fmt.Sprintf("wk%02d", r.Intn(11)): fmt.Sprintf("child%d", i)}
+			if r.Bool() {
+				over[fmt.Sprintf("wk%02d", r.Intn(11))] = "child"
+			}
+			p = append(p, dstep{IsTag: true, Tags: over})
+		}
+		progs = append(progs, p)
 	}
 	// half of the histories: the caller owns one map object and refills it for
 	// every Tagged call
@@ -314,6 +331,12 @@ func c11History(c *mon.Ctx, r *mon.Rand) {
 		when string
 	}
 	var olds []frozen
+	type lateSnap struct {
+		snap tally.Snapshot
+		ref  map[string]*c11Metric
+		when string
+	}
+	var lates []lateSnap
 	nops := r.Range(5, 60)
 	panicked := c.Guard("panic", desc, func() {
 		for i := 0; i < nops; i++ {
@@ -377,6 +400,14 @@ func c11History(c *mon.Ctx, r *mon.Rand) {
 					snap = ts.Snapshot()
 				}
 				when := fmt.Sprintf("snapshot after op %d", i)
+				if r.Chance(1, 3) {
+					// not looked at until the history is over: it must then still show
+					// the state at the time it was taken
+					lates = append(lates, lateSnap{snap, c11CloneRef(ref), when + " (first read at the end of the history)"})
+					ops = append(ops, "Snapshot() kept unread")
+					c.Event("snapshots-first-read-later", 1)
+					break
+				}
 				c11Check(c, snap, ref, when, desc())
 				olds = append(olds, frozen{snap, c11Freeze(snap), when})
 				ops = append(ops, "Snapshot()")
@@ -436,6 +467,9 @@ func c11History(c *mon.Ctx, r *mon.Rand) {
 		snap := ts.Snapshot()
 		c11Check(c, snap, ref, "final snapshot", desc())
 		c.Event("snapshots-taken", 1)
+		for _, l := range lates {
+			c11Check(c, l.snap, l.ref, l.when, desc())
+		}
 	})
 	_ = panicked
 	if c.WantSample() {
@@ -598,4 +632,24 @@ func c11FirstUse(c *mon.Ctx, r *mon.Rand) {
 		}
 	}
 	c.Event("concurrent-first-use-rounds", int64(rounds))
+}
+
+// c11CloneRef copies the reference tally (the state a snapshot taken now must
+// keep showing).
+func c11CloneRef(ref map[string]*c11Metric) map[string]*c11Metric {
+	out := make(map[string]*c11Metric, len(ref))
+	for k, m := range ref {
+		n := *m
+		n.Timers = append([]time.Duration(nil), m.Timers...)
+		n.CntV = make(map[float64]int64, len(m.CntV))
+		for a, b := range m.CntV {
+			n.CntV[a] = b
+		}
+		n.CntD = make(map[time.Duration]int64, len(m.CntD))
+		for a, b := range m.CntD {
+			n.CntD[a] = b
+		}
+		out[k] = &n
+	}
+	return out
 }
